@@ -64,6 +64,8 @@ def c17(ck):
     tr = os.path.join(rundir(), "joytrace.ndjson")
     path = vlib.build_harness()
     rc, o, e = vlib.sh([path, "joypad-trace", "--events", str(n)], env={"VERIF_SEED": vlib.seed()})
+    if rc < 0:
+        raise vlib.CodeCrash([path, "joypad-trace"], rc, e)
     if rc != 0:
         raise ToolError("joypad-trace failed")
     open(tr, "w").write(o)
@@ -82,6 +84,8 @@ def run_to_file(args, path, jit=False, env=None):
     import subprocess
     with open(path, "w") as f:
         p = subprocess.run([exe] + [str(a) for a in args], stdout=f, stderr=subprocess.PIPE, env=e, cwd=vlib.VERIF, timeout=3600)
+    if p.returncode < 0:
+        raise vlib.CodeCrash(["gbv"] + list(args), p.returncode, p.stderr.decode(errors="replace"))
     if p.returncode != 0:
         raise ToolError("recorder failed rc=%d: %s\n%s" % (p.returncode, args[:3], p.stderr.decode(errors="replace")[-2000:]))
     n = 0
@@ -305,6 +309,8 @@ def record_and_validate_machine(ck, scenarios, tag, jit=False, shards=8, cold=Fa
         gbprog.write_scenarios(sp, parts[i])
         args = [exe, "machine", "--scenarios", sp, "--out", tp] + (["--cold-cache"] if cold else [])
         rc, o, e = vlib.sh(args, cwd=vlib.VERIF, env={"VERIF_SEED": vlib.seed()}, timeout=3600)
+        if rc < 0:
+            raise vlib.CodeCrash(args, rc, e)
         if rc != 0:
             raise ToolError("machine recorder failed (rc=%s): %s" % (rc, e[-1500:]))
         return tp
@@ -392,3 +398,136 @@ def c09(ck):
         files = record_and_validate_machine(ck, ss, "c09" + tag, jit=jit, shards=8, validate="Trace_Clock")
         if tag == "instr":
             ck.sample({"trace_excerpt": head_lines(files[0], 5)[1:]})
+
+
+# ------------------------------------------------------------------- C12
+@prop("C12")
+def c12(ck):
+    thorough = ck.tier == "thorough"
+    ck.rule = ("controller transition relation exported by TLC (Gen_Cart): complete register space of MBC1 (32x4x2) and MBC3 "
+               "(128x4) x 4 register windows x 256 written values on 2 MiB/32 KiB cartridges, a register lattice on every "
+               "ROM/RAM size and type incl. ROM-only; replayed on bank-tagged images observing the bytes at 0x0000/0x3FFE, "
+               "0x4000/0x7FFE and 0xA000/0xBFFF; plus random write/read histories validated against Machine.tla; "
+               "a transition is non-trivial when the write changes the visible ROM or RAM bank")
+    mc = tlc("MC_Cart", cfg="MC_Cart_deep" if thorough else "MC_Cart", workers=10, coverage=True, timeout=3000)
+    ck.add_tlc("MC_Cart", mc)
+    ck.require_coverage(mc, ["Write"])
+    files = gen_sharded(ck, "Gen_Cart", "cart", 16)
+    nontriv = 0
+    ncases = 0
+    for f in files:
+        with open(f) as fh:
+            for line in fh:
+                r = json.loads(line)
+                ncases += 1
+                nontriv += sum(1 for e in r["exp"] if e[0] != r["pre_rb"] or e[1] != r["pre_mb"])
+                if ncases == 7:
+                    ck.sample({k: (v if k != "exp" else v[:6] + ["..."]) for k, v in r.items()})
+    recs = replay_files("mbc", files)
+    summ = [r for r in recs if r.get("kind") == "summary"]
+    for m in recs:
+        if m.get("kind") in ("mismatch", "crash"):
+            kind = "mbc1" if m["t"] in (1, 2, 3) else ("mbc3" if m["t"] in (17, 18, 19) else "rom")
+            ck.mismatch(dict(m, controller=kind), "%s-%s-mode%s" % (m["kind"], kind, m["pre"]["mode"]))
+    truncated = any(s.get("truncated") for s in summ)
+    if not truncated and (len(summ) != 16 or sum(s["cases"] for s in summ) != ncases or ncases != 48432):
+        raise ToolError("controller replay incomplete")
+    ck.count(sum(s["transitions"] for s in summ))
+    ck.traces += sum(s["transitions"] for s in summ)
+    ck.nontrivial_count += nontriv
+    ck.exhaustive = not truncated
+    # impl -> spec: random histories over all controller types
+    n = 200000 if thorough else 20000
+    tr = os.path.join(rundir(), "bustr.ndjson")
+    vlib.gbv(["bus-trace", "--events", n, "--out", tr])
+    ck.count(n)
+    for pth in (split_trace_init(tr, 50000) if thorough else [tr]):
+        trace_validate(ck, "Trace_Machine", pth, n, "bus-history")
+
+
+def split_trace_init(path, maxlines):
+    parts, cur, n, idx = [], None, 0, 0
+    with open(path) as f:
+        for line in f:
+            if cur is None or (n >= maxlines and '"ev":"init"' in line):
+                if cur:
+                    cur.close()
+                idx += 1
+                pn = "%s.part%d" % (path, idx)
+                parts.append(pn)
+                cur = open(pn, "w")
+                n = 0
+            cur.write(line)
+            n += 1
+    if cur:
+        cur.close()
+    return parts
+
+
+# ------------------------------------------------------------------- C11
+@prop("C11")
+def c11(ck):
+    thorough = ck.tier == "thorough"
+    ck.rule = ("every (type, ROM-size code, RAM-size code) a loadable file can declare (7 x 12 x 6), loaded through "
+               "Core::from_rom_file in an isolated worker (overflow checks on), x controller-register lattice (12 x 6 x 2 "
+               "values in the three registers) x addresses (region boundaries; all 65536 in the thorough tier) x "
+               "{read, write, word read, word write}; the observation is completion; a configuration is a case")
+    thm = tlc("Thm_Bus", timeout=1800)
+    ck.add_tlc("Thm_Bus", thm, mc=False)
+    mc = tlc("MC_Cart", cfg="MC_Cart_deep" if thorough else "MC_Cart", workers=10, coverage=True, timeout=3000)
+    ck.add_tlc("MC_Cart", mc)           # invariant InBounds: every index inside the cartridge
+    d = os.path.join(rundir(), "crashdir")
+    os.makedirs(d, exist_ok=True)
+    recs = gbv(["bus-crash", "--dir", d] + (["--all-addresses"] if thorough else []), timeout=7200)
+    summ = [r for r in recs if r.get("kind") == "summary"]
+    if not summ or summ[0]["configs"] != 504:
+        raise ToolError("crash sweep incomplete")
+    done = [r for r in recs if r.get("kind") == "config"]
+    if not done:
+        done = [{"accesses": 0}]
+    ck.count(sum(r["accesses"] for r in done))
+    ck.nontrivial_count += len(done)
+    ck.traces += len(done)
+    ck.exhaustive = True
+    ck.sample(done[100] if len(done) > 100 else {"configs": len(done)})
+    for r in recs:
+        if r.get("kind") == "crash":
+            ck.mismatch(dict(r, ram_bytes_class=("none" if r["mc"] in (0,) else "some")), "crash-t%d-rc%d-mc%d" % (r["t"], r["rc"], r["mc"]))
+    # word accesses and stack operations at the edges, executed as instructions (both engines share the helpers)
+    import gbprog
+    rng = random.Random(vlib.seed() + 11)
+    scs = gbprog.edge_access_programs(rng)
+    record_and_validate_machine(ck, scs, "c11edge", jit=False, shards=4)
+
+
+# ------------------------------------------------------------------- C10
+@prop("C10")
+def c10(ck):
+    thorough = ck.tier == "thorough"
+    ck.rule = ("cell map computed from Machine.tla's MRead/MWrite by TLC (Gen_Bus) drives a sweep: every non-device address as "
+               "write target x probes (the cell, +-1,2,0x7f,0x80,0x100,0x1000,0x2000,0x4000,0x8000, region boundaries, 64 random; "
+               "all 65536 in the thorough tier) + fetch view; random bus histories over every implemented I/O register, "
+               "controller registers, device time and joypad input validated against Machine.tla; a probe is a case")
+    thm = tlc("Thm_Bus", timeout=1800)
+    ck.add_tlc("Thm_Bus", thm, mc=False)
+    mp = os.path.join(rundir(), "busmap.json")
+    g = tlc("Gen_Bus", env={"OUT": mp})
+    ck.add_tlc("Gen_Bus", g, mc=False)
+    recs = gbv(["bus-sweep", "--map", mp] + (["--all-probes"] if thorough else ["--passes", "2"]), timeout=7200)
+    summ = [r for r in recs if r.get("kind") == "summary"]
+    if not summ:
+        raise ToolError("sweep did not finish")
+    ck.count(summ[0]["probes"])
+    ck.nontrivial_count += summ[0]["targets"]
+    ck.traces += summ[0]["targets"]
+    ck.extra["probes"] = summ[0]["probes"]
+    for m in recs:
+        if m.get("kind") == "mismatch":
+            ck.mismatch(m, "sweep-%s-%s" % (m["tclass"], m["pclass"]))
+    n = 400000 if thorough else 40000
+    tr = os.path.join(rundir(), "bustr.ndjson")
+    vlib.gbv(["bus-trace", "--events", n, "--out", tr])
+    ck.count(n)
+    ck.sample({"history_excerpt": head_lines(tr, 6)[1:]})
+    for pth in (split_trace_init(tr, 50000) if thorough else [tr]):
+        trace_validate(ck, "Trace_Machine", pth, n, "bus-history")
